@@ -119,12 +119,20 @@ def model_to_object(*, model: OpenJDModel) -> dict[str, Any]:
             for i, item in enumerate(data):
                 if isinstance(item, Decimal):
                     data[i] = str(item)
+                elif isinstance(item, Enum):
+                    data[i] = item.value
+                elif isinstance(item, str) and type(item) is not str:
+                    data[i] = str(item)
                 elif isinstance(item, (dict, list)):
                     decimal_to_str(item)
         else:
             delete_keys: list[str] = []
             for k, v in data.items():
                 if isinstance(v, Decimal):
+                    data[k] = str(v)
+                elif isinstance(v, Enum):
+                    data[k] = v.value
+                elif isinstance(v, str) and type(v) is not str:
                     data[k] = str(v)
                 elif isinstance(v, (dict, list)):
                     decimal_to_str(v)
